@@ -21,13 +21,47 @@ type Func struct {
 	VarArg bool
 	Body   []*N
 	Env    *Scope
-	Host   string // "p" or "pfail" or "" for script functions
+	Host   string // "p" or "pfail" or a g* host function, "" for script functions
+	HP     []string // host parameter types: any | int64 | string
+	HV     bool     // host function is variadic (last HP entry is the element type)
 }
 type ErrV struct {
 	Msg   string
 	Known bool // message is fixed by the statement (throw of a value); otherwise only presence is compared
 }
 type Module struct{ Env *Scope }
+
+// HostFuncs are the Go functions the probe environment offers besides p and pfail
+// (see host.go for their Go implementations): each returns the list of the arguments
+// it received.
+var HostFuncs = map[string]*Func{
+	"gfix1":  {Host: "gfix1", HP: []string{"any"}},
+	"gfix2":  {Host: "gfix2", HP: []string{"any", "any"}},
+	"gfix3":  {Host: "gfix3", HP: []string{"any", "any", "any"}},
+	"gfix5":  {Host: "gfix5", HP: []string{"any", "any", "any", "any", "any"}},
+	"gvar":   {Host: "gvar", HP: []string{"any", "any"}, HV: true},
+	"gtyped": {Host: "gtyped", HP: []string{"int64", "string", "int64"}},
+	"gtvar":  {Host: "gtvar", HP: []string{"string", "int64"}, HV: true},
+}
+
+// hostConv converts v for a Go parameter of type typ; false = no conversion exists.
+func hostConv(v interface{}, typ string) (interface{}, bool) {
+	switch typ {
+	case "any":
+		return v, true
+	case "int64":
+		if i, ok := v.(int64); ok {
+			return i, true
+		}
+		return nil, false
+	case "string":
+		if s, ok := v.(string); ok {
+			return s, true
+		}
+		return nil, false
+	}
+	return nil, false
+}
 
 type Scope struct {
 	vars   map[string]interface{}
@@ -192,6 +226,9 @@ func Run(stmts []*N, cfg Cfg, budget int) (out *Outcome) {
 	top := NewScope(nil)
 	top.define("p", &Func{Host: "p"})
 	top.define("pfail", &Func{Host: "pfail"})
+	for name, f := range HostFuncs {
+		top.define(name, f)
+	}
 	out.Top = top
 	defer func() {
 		if r := recover(); r != nil {
@@ -607,6 +644,15 @@ func (m *Model) stmt1(s *N, sc *Scope) ctl {
 		if call.B {
 			m.unspec("spread in defer")
 		}
+		if fn.HP != nil {
+			// typed Go function: operands are evaluated and converted at the defer
+			// statement; the functions themselves are free of side effects
+			_, c := m.callHost(fn, args, false, sc)
+			if c.s == sNone {
+				m.feat("defer_registered")
+			}
+			return c
+		}
 		if fn.Host == "" {
 			if !fn.VarArg && len(fn.Params) == 0 && len(args) > 0 {
 				m.unspec("arguments passed to a parameterless function")
@@ -626,6 +672,82 @@ func (m *Model) stmt1(s *N, sc *Scope) ctl {
 		cur := m.inv[len(m.inv)-1]
 		cur.defers = append(cur.defers, deferred{fn: fn, args: av})
 		m.feat("defer_registered")
+		return ok0
+	case "opidx":
+		// a[i] op= e  stands for  a[i] = a[i] op e : the operands of the target are
+		// evaluated twice, e once. Their relative order is not specified, so the
+		// generators give the probes inside this statement negative ids (compared as a multiset).
+		var last interface{}
+		for round := 0; round < 2; round++ {
+			tv, c := m.eval(s.Ns[0], sc)
+			if c.s != sNone {
+				return c
+			}
+			iv, c := m.eval(s.Ns[1], sc)
+			if c.s != sNone {
+				return c
+			}
+			l, ok := tv.(*List)
+			ix, ok2 := iv.(int64)
+			if !ok || !ok2 || ix < 0 || ix >= int64(len(l.E)) {
+				m.unspec("index target outside the always-valid range used by the generators")
+			}
+			if round == 0 {
+				var rv interface{} = int64(1) // a[i]++ / a[i]--
+				if len(s.Ns) > 2 {
+					var c ctl
+					rv, c = m.eval(s.Ns[2], sc)
+					if c.s != sNone {
+						return c
+					}
+				}
+				last = m.binop(s.Ps[0], l.E[ix], rv)
+			} else {
+				l.E[ix] = last
+			}
+		}
+		return ok0
+	case "go":
+		// the operands of a go call are evaluated by the caller, in order; the callee
+		// (which the generators keep free of probes) then runs concurrently
+		call := s.Ns[0]
+		var fv interface{}
+		var args []*N
+		switch call.K {
+		case "call":
+			v, _, ok := sc.lookup(call.S)
+			if !ok {
+				return errc("undefined symbol", false)
+			}
+			fv, args = v, call.Ns
+		case "acall":
+			v, c := m.eval(call.Ns[0], sc)
+			if c.s != sNone {
+				return c
+			}
+			fv, args = v, call.Ns[1:]
+		default:
+			m.unspec("go of %s", call.K)
+		}
+		fn, ok := fv.(*Func)
+		if !ok {
+			return errc("cannot call type", false)
+		}
+		// evaluate exactly like a call, discard the result (errors inside the callee are lost)
+		if fn.HP != nil {
+			_, c := m.callHost(fn, args, call.B, sc)
+			return c
+		}
+		if (!fn.VarArg && len(args) != len(fn.Params)) || (fn.VarArg && len(args) < len(fn.Params)-1) {
+			if !call.B {
+				return errc("function wants N arguments", false)
+			}
+		}
+		for _, a := range args {
+			if _, c := m.eval(a, sc); c.s != sNone {
+				return c
+			}
+		}
 		return ok0
 	case "module":
 		ms := m.newScope("module", sc)
@@ -773,6 +895,9 @@ func (m *Model) callValue(fv interface{}, argExprs []*N, spread bool, sc *Scope)
 			return nil, errc("function wants N arguments", false)
 		}
 	}
+	if fn.HP != nil {
+		return m.callHost(fn, argExprs, spread, sc)
+	}
 	args := make([]interface{}, 0, len(argExprs))
 	for _, a := range argExprs {
 		v, c := m.eval(a, sc)
@@ -799,6 +924,67 @@ func (m *Model) callValue(fv interface{}, argExprs []*N, spread bool, sc *Scope)
 		}
 	}
 	return m.apply(fn, args)
+}
+
+// callHost models a call of a typed Go function: wrong counts are rejected before any
+// operand is evaluated; each operand is evaluated and then converted for its parameter,
+// a failing conversion ends the evaluation of the operands after it.
+func (m *Model) callHost(fn *Func, argExprs []*N, spread bool, sc *Scope) (interface{}, ctl) {
+	n := len(fn.HP)
+	ne := len(argExprs)
+	switch {
+	case !fn.HV && !spread && ne != n,
+		fn.HV && !spread && ne < n-1,
+		!fn.HV && spread && (ne > n || ne < 1):
+		m.feat("arity_error")
+		return nil, errc("function wants N arguments", false)
+	case fn.HV && spread && ne != n:
+		m.unspec("spread call of a variadic function whose list is not in the variadic position")
+	}
+	typeOf := func(i int) string {
+		if fn.HV && i >= n-1 {
+			return fn.HP[n-1]
+		}
+		return fn.HP[i]
+	}
+	var got []interface{}
+	for i, a := range argExprs {
+		v, c := m.eval(a, sc)
+		if c.s != sNone {
+			return nil, c
+		}
+		if spread && i == ne-1 {
+			l, ok := v.(*List)
+			if !ok {
+				return nil, errc("call is variadic but last parameter is not a list", false)
+			}
+			if !fn.HV {
+				if len(l.E) < n-i {
+					return nil, errc("function wants N arguments", false)
+				}
+				if len(l.E) > n-i {
+					m.unspec("spread list longer than the parameter list")
+				}
+			}
+			for j, e := range l.E {
+				cv, ok := hostConv(e, typeOf(i+j))
+				if !ok {
+					m.feat("conversion_error")
+					return nil, errc("function wants argument type", false)
+				}
+				got = append(got, cv)
+			}
+			break
+		}
+		cv, ok := hostConv(v, typeOf(i))
+		if !ok {
+			m.feat("conversion_error")
+			return nil, errc("function wants argument type", false)
+		}
+		got = append(got, cv)
+	}
+	m.step()
+	return &List{E: got}, ok0
 }
 
 func (m *Model) eval(e *N, sc *Scope) (interface{}, ctl) {
@@ -850,6 +1036,75 @@ func (m *Model) eval(e *N, sc *Scope) (interface{}, ctl) {
 			mp.set(k, v)
 		}
 		return mp, ok0
+	case "tlist":
+		// typed slice literal []T{...}: S is the element type
+		l := &List{E: make([]interface{}, 0, len(e.Ns))}
+		for _, k := range e.Ns {
+			v, c := m.eval(k, sc)
+			if c.s != sNone {
+				return nil, c
+			}
+			cv, ok := hostConv(v, e.S)
+			if !ok {
+				m.feat("conversion_error")
+				return nil, errc("cannot use type as slice value", false)
+			}
+			l.E = append(l.E, cv)
+		}
+		return l, ok0
+	case "tmap":
+		// typed map literal map[string]T{...}: S is the value type, keys are strings
+		mp := &Map{}
+		for i := 0; i+1 < len(e.Ns); i += 2 {
+			k, c := m.eval(e.Ns[i], sc)
+			if c.s != sNone {
+				return nil, c
+			}
+			ck, ok := hostConv(k, "string")
+			if !ok {
+				m.feat("conversion_error")
+				return nil, errc("cannot use type as map key", false)
+			}
+			v, c := m.eval(e.Ns[i+1], sc)
+			if c.s != sNone {
+				return nil, c
+			}
+			cv, ok := hostConv(v, e.S)
+			if !ok {
+				m.feat("conversion_error")
+				return nil, errc("cannot use type as map value", false)
+			}
+			mp.set(ck, cv)
+		}
+		return mp, ok0
+	case "slice":
+		a, c := m.eval(e.Ns[0], sc)
+		if c.s != sNone {
+			return nil, c
+		}
+		l, ok := a.(*List)
+		if !ok {
+			m.unspec("slice of %T", a)
+		}
+		idx := []int64{0, int64(len(l.E)), int64(len(l.E))}
+		for i := 1; i < len(e.Ns); i++ {
+			if e.Ns[i].K == "none" {
+				continue
+			}
+			v, c := m.eval(e.Ns[i], sc)
+			if c.s != sNone {
+				return nil, c
+			}
+			iv, ok := v.(int64)
+			if !ok {
+				m.unspec("slice index of %T", v)
+			}
+			idx[i-1] = iv
+		}
+		if idx[0] < 0 || idx[1] > int64(len(l.E)) || idx[0] > idx[1] || (len(e.Ns) > 3 && (idx[2] < idx[1] || idx[2] > int64(len(l.E)))) {
+			m.unspec("slice bounds outside the always-valid range used by the generators")
+		}
+		return &List{E: append([]interface{}{}, l.E[idx[0]:idx[1]]...)}, ok0
 	case "bin":
 		a, c := m.eval(e.Ns[0], sc)
 		if c.s != sNone {
@@ -1084,6 +1339,26 @@ func (m *Model) binop(op string, a, b interface{}) interface{} {
 		if aInt && bInt && bi != 0 {
 			return ai % bi
 		}
+	case "&":
+		if aInt && bInt {
+			return ai & bi
+		}
+	case "|":
+		if aInt && bInt {
+			return ai | bi
+		}
+	case "<<":
+		if aInt && bInt {
+			return ai << uint64(bi)
+		}
+	case ">>":
+		if aInt && bInt {
+			return ai >> uint64(bi)
+		}
+	case "/":
+		if aInt && bInt {
+			return float64(ai) / float64(bi)
+		}
 	case "<", "<=", ">", ">=":
 		if aInt && bInt {
 			switch op {
@@ -1236,11 +1511,11 @@ func Render(v interface{}) string {
 		}
 		return "[" + strings.Join(parts, ",") + "]"
 	case *Map:
-		ks, vs := t.sorted()
-		parts := make([]string, len(ks))
-		for i := range ks {
-			parts[i] = Render(ks[i]) + "=" + Render(vs[i])
+		parts := make([]string, len(t.K))
+		for i := range t.K {
+			parts[i] = Render(t.K[i]) + "=" + Render(t.V[i])
 		}
+		sort.Strings(parts)
 		return "{" + strings.Join(parts, ",") + "}"
 	case *Func:
 		return "fn"
